@@ -142,12 +142,17 @@ def _conv(n):
             acc = (cls, (acc, v))     # left-nested: same evaluation order
         return acc
     if isinstance(n, ast.Compare):
-        if len(n.ops) != 1:
-            raise NotShared("comparison chain")
-        sym = ops["cmpops"][type(n.ops[0]).__name__]
-        if sym not in ("==", "!=", "<", "<=", ">", ">="):
-            raise NotShared(f"comparison {sym}")
-        return ("Comparison", _conv(n.left), sym, _conv(n.comparators[0]))
+        # language reference 6.10: a op1 b op2 c  is  (a op1 b) and (b op2 c)
+        # with b evaluated once -- the same value for the side-effect free
+        # operands of the expression language
+        operands = [_conv(n.left)] + [_conv(c) for c in n.comparators]
+        links = []
+        for left, op, right in zip(operands, n.ops, operands[1:]):
+            sym = ops["cmpops"][type(op).__name__]
+            if sym not in ("==", "!=", "<", "<=", ">", ">="):
+                raise NotShared(f"comparison {sym}")
+            links.append(("Comparison", left, sym, right))
+        return links[0] if len(links) == 1 else ("LogicalAnd", tuple(links))
     if isinstance(n, ast.IfExp):
         return ("If", _conv(n.test), _conv(n.body), _conv(n.orelse))
     if isinstance(n, ast.Call):
@@ -171,15 +176,22 @@ def _conv(n):
     raise NotShared(type(n).__name__)
 
 
+def slice_meaning(t):
+    """*t* with every Slice padded to (start, stop, step)"""
+    if isinstance(t, tuple):
+        if len(t) == 2 and t[0] == "Slice" and isinstance(t[1], tuple):
+            kids = tuple(slice_meaning(x) for x in t[1])
+            return ("Slice", kids + (None,) * (3 - len(kids)))
+        return tuple(slice_meaning(x) for x in t)
+    return t
+
+
 def _conv_index(sl):
     if isinstance(sl, ast.Slice):
-        parts = [sl.lower, sl.upper]
-        if sl.step is not None:
-            parts.append(sl.step)
-        elif sl.lower is None and sl.upper is None:
-            # pymbolic writes the all-omitted slice as Slice((None,)), whose
-            # start/stop/step are all None
-            parts = [None]
+        # Python's tree does not say how many colons were written (a[:] and
+        # a[::] are the same ast.Slice): slices are compared by meaning, as
+        # (start, stop, step) -- see slice_meaning()
+        parts = [sl.lower, sl.upper, sl.step]
         return ("Slice", tuple(None if p is None else _conv(p) for p in parts))
     if isinstance(sl, ast.Tuple):
         return ("Tuple", tuple(_conv_index(e) for e in sl.elts))
